@@ -542,5 +542,9 @@ PROPS["C03"]["rules"] = PROPS["C03"]["rules"] + [rules_sd.rule_piecewise_loop_cl
 PROPS["C03"]["explanation"] += " (PIECECLAMP) the piecewise fill loops re-clamp the piece size to what remains."
 PROPS["C04"]["rules"] = PROPS["C04"]["rules"] + [rules_sd.rule_piecewise_loop_clamped]
 
+PROPS["C17"]["rules"] = PROPS["C17"]["rules"] + [rules_ref.rule_newref_same_tag]
+PROPS["C17"]["explanation"] += " (NEWREFTAG) a reference allocated with Htagnewref for a tag is used to create an element of that same tag, so a new object never takes the tag/ref of a live one."
+PROPS["C12"]["rules"] = PROPS["C12"]["rules"] + [rules_ref.rule_newref_same_tag]
+
 NOT_APPLICABLE = {}
 
